@@ -595,6 +595,14 @@ func GenRounds(rnd *rand.Rand, persist bool) RHist {
 		nrounds = 3 + rnd.Intn(8)
 	}
 	ver := int64(1 + rnd.Intn(3))
+	switch rnd.Intn(10) {
+	case 0: // versions across a byte boundary of their stored form (dead-node records are kept in version order)
+		ver = int64(254 + rnd.Intn(3))
+	case 1:
+		ver = int64(65534 + rnd.Intn(3))
+	case 2:
+		ver = int64(1<<24 - 3 + rnd.Intn(3))
+	}
 	lastSaved := int64(0)
 	var view map[int]map[string]string
 	for rd := 0; rd < nrounds; rd++ {
